@@ -131,6 +131,23 @@ theorem C06_ibc_sum (denom : Denom) (F : Nat) (dev : Option Addr) :
   | none => simp [ibcDenomFairBurn, sumAmounts, Msg.amount]
   | some d => simp [ibcDenomFairBurn, sumAmounts, Msg.amount, C06_bridge_half_ceil]; omega
 
+/-! ## Creation fee routing in the factories -/
+
+/-- a native creation fee is fair-burned on behalf of the factory: half burned (floor), the rest to the fair-burn pool — whatever
+the denom of the factory's minimum price or of anything else -/
+theorem C06_creation_fee_native (self fee pay : Nat) (hp : fee ≤ pay) (hz : pay ≠ 0) :
+    creationFeeMsgs self NATIVE fee [⟨NATIVE, pay⟩] =
+      .ok [Msg.burn ⟨NATIVE, fee / 2⟩, Msg.fundPool self ⟨NATIVE, fee - fee / 2⟩] := by
+  unfold creationFeeMsgs
+  rw [if_pos rfl, C06_checked_ok [⟨NATIVE, pay⟩] self fee none pay (by simp [mayPay]) hp hz, C06_fairburn]
+
+/-- "fees in a non-native denom go in full to the launchpad DAO" -/
+theorem C06_creation_fee_nonnative (self d fee pay : Nat) (hd : d ≠ NATIVE) (hp : fee ≤ pay) (hz : pay ≠ 0) :
+    creationFeeMsgs self d fee [⟨d, pay⟩] = .ok [Msg.send LAUNCHPAD_DAO ⟨d, pay⟩] := by
+  unfold creationFeeMsgs
+  rw [if_neg hd]
+  exact C06_nonnative_full ⟨d, pay⟩ fee hz hp
+
 /-! ## The callers (which minter passes which flag and developer)
 
 `mintFeeMsgs k price b dev` is what one public mint on minter kind `k` emits for the network fee (`Model/Sg1.lean`; validated
